@@ -49,7 +49,7 @@ OBLIGATIONS = [
     "C13_settings_copied", "C13_settings_alias_refuted", "C13_call_examples",
 ]
 
-SCRATCH = "/tmp/scratch/c13"
+SCRATCH = f"/tmp/scratch/c13-check-{os.getpid()}"
 F6_SIG = "scipy_minimize:start-point-from-individual-values-left-by-fit"
 MIX_SIG = "personalize-mcmc:aborted-call-leaves-its-data:mixture_logistic"
 
@@ -328,9 +328,10 @@ def snapshot(model):
             snap["to_dict"] = canon(model.to_dict())
     except Exception as e:  # pragma: no cover
         snap["to_dict"] = ("exc", type(e).__name__)
+    # model hyper-parameters in leaspy's other sense (what `_load_hyperparameters` sets); NOT `tracked_variables` & co: the
+    # property lists parameters, hyper-parameters and population variables only
     snap["attrs"] = canon(dict(features=list(model.features) if model.features is not None else None, dimension=model.dimension,
-                               source_dimension=getattr(model, "source_dimension", None), name=model.name,
-                               tracked=sorted(getattr(model, "tracked_variables", []) or [])))
+                               source_dimension=getattr(model, "source_dimension", None), name=model.name))
     return snap
 
 
@@ -433,6 +434,8 @@ def same_parameters(a, b):
     if sorted(pa) != sorted(pb):
         return False
     for k in pa:
+        if pa[k].dtype != pb[k].dtype:       # float64 parameters come back as float32 (C12): not "the same parameters"
+            return False
         x, y = pa[k].detach().to(torch.float64), pb[k].detach().to(torch.float64)
         if x.numel() != y.numel() or not torch.equal(x.reshape(-1), y.reshape(-1)):
             return False
